@@ -85,31 +85,31 @@ mod mac_nested__pari;
 mod mac_local_names__ser;
 mod mac_block__exp;
 mod stress_lat__par;
-mod rnd_core_02__ser;
-mod rnd_core_04__pari;
-mod rnd_core_07__par;
-mod rnd_core_10__ser;
-mod rnd_core_12__pari;
-mod rnd_core_15__par;
-mod rnd_core_18__ser;
-mod rnd_core_20__pari;
-mod rnd_core_23__par;
-mod rnd_core_26__ser;
-mod rnd_core_28__pari;
-mod rnd_agg_01__par;
-mod rnd_agg_04__ser;
-mod rnd_agg_06__pari;
-mod rnd_agg_09__par;
-mod rnd_agg_12__ser;
-mod rnd_agg_14__pari;
-mod rnd_prec_01__topar;
-mod rnd_prec_03__pari;
-mod rnd_prec_05__ser;
-mod rnd_prec_06__to;
-mod rnd_prec_08__par;
-mod rnd_prea_02__par;
-mod rnd_prea_05__ser;
-mod rnd_prea_07__pari;
+mod rnd_core_01__ser;
+mod rnd_core_03__pari;
+mod rnd_core_06__par;
+mod rnd_core_09__ser;
+mod rnd_core_11__pari;
+mod rnd_core_14__par;
+mod rnd_core_17__ser;
+mod rnd_core_19__pari;
+mod rnd_core_22__par;
+mod rnd_core_25__ser;
+mod rnd_core_27__pari;
+mod rnd_core_30__par;
+mod rnd_agg_03__ser;
+mod rnd_agg_05__pari;
+mod rnd_agg_08__par;
+mod rnd_agg_11__ser;
+mod rnd_agg_13__pari;
+mod rnd_prec_01__par;
+mod rnd_prec_02__topar;
+mod rnd_prec_04__pari;
+mod rnd_prec_06__ser;
+mod rnd_prec_07__to;
+mod rnd_prea_01__par;
+mod rnd_prea_04__ser;
+mod rnd_prea_06__pari;
 
 fn lookup(name: &str) -> fn() -> Box<dyn Driven> {
    match name {
@@ -190,31 +190,31 @@ fn lookup(name: &str) -> fn() -> Box<dyn Driven> {
       "mac_local_names__ser" => mac_local_names__ser::make,
       "mac_block__exp" => mac_block__exp::make,
       "stress_lat__par" => stress_lat__par::make,
-      "rnd_core_02__ser" => rnd_core_02__ser::make,
-      "rnd_core_04__pari" => rnd_core_04__pari::make,
-      "rnd_core_07__par" => rnd_core_07__par::make,
-      "rnd_core_10__ser" => rnd_core_10__ser::make,
-      "rnd_core_12__pari" => rnd_core_12__pari::make,
-      "rnd_core_15__par" => rnd_core_15__par::make,
-      "rnd_core_18__ser" => rnd_core_18__ser::make,
-      "rnd_core_20__pari" => rnd_core_20__pari::make,
-      "rnd_core_23__par" => rnd_core_23__par::make,
-      "rnd_core_26__ser" => rnd_core_26__ser::make,
-      "rnd_core_28__pari" => rnd_core_28__pari::make,
-      "rnd_agg_01__par" => rnd_agg_01__par::make,
-      "rnd_agg_04__ser" => rnd_agg_04__ser::make,
-      "rnd_agg_06__pari" => rnd_agg_06__pari::make,
-      "rnd_agg_09__par" => rnd_agg_09__par::make,
-      "rnd_agg_12__ser" => rnd_agg_12__ser::make,
-      "rnd_agg_14__pari" => rnd_agg_14__pari::make,
-      "rnd_prec_01__topar" => rnd_prec_01__topar::make,
-      "rnd_prec_03__pari" => rnd_prec_03__pari::make,
-      "rnd_prec_05__ser" => rnd_prec_05__ser::make,
-      "rnd_prec_06__to" => rnd_prec_06__to::make,
-      "rnd_prec_08__par" => rnd_prec_08__par::make,
-      "rnd_prea_02__par" => rnd_prea_02__par::make,
-      "rnd_prea_05__ser" => rnd_prea_05__ser::make,
-      "rnd_prea_07__pari" => rnd_prea_07__pari::make,
+      "rnd_core_01__ser" => rnd_core_01__ser::make,
+      "rnd_core_03__pari" => rnd_core_03__pari::make,
+      "rnd_core_06__par" => rnd_core_06__par::make,
+      "rnd_core_09__ser" => rnd_core_09__ser::make,
+      "rnd_core_11__pari" => rnd_core_11__pari::make,
+      "rnd_core_14__par" => rnd_core_14__par::make,
+      "rnd_core_17__ser" => rnd_core_17__ser::make,
+      "rnd_core_19__pari" => rnd_core_19__pari::make,
+      "rnd_core_22__par" => rnd_core_22__par::make,
+      "rnd_core_25__ser" => rnd_core_25__ser::make,
+      "rnd_core_27__pari" => rnd_core_27__pari::make,
+      "rnd_core_30__par" => rnd_core_30__par::make,
+      "rnd_agg_03__ser" => rnd_agg_03__ser::make,
+      "rnd_agg_05__pari" => rnd_agg_05__pari::make,
+      "rnd_agg_08__par" => rnd_agg_08__par::make,
+      "rnd_agg_11__ser" => rnd_agg_11__ser::make,
+      "rnd_agg_13__pari" => rnd_agg_13__pari::make,
+      "rnd_prec_01__par" => rnd_prec_01__par::make,
+      "rnd_prec_02__topar" => rnd_prec_02__topar::make,
+      "rnd_prec_04__pari" => rnd_prec_04__pari::make,
+      "rnd_prec_06__ser" => rnd_prec_06__ser::make,
+      "rnd_prec_07__to" => rnd_prec_07__to::make,
+      "rnd_prea_01__par" => rnd_prea_01__par::make,
+      "rnd_prea_04__ser" => rnd_prea_04__ser::make,
+      "rnd_prea_06__pari" => rnd_prea_06__pari::make,
       _ => panic!("no such program variant in this shard: {}", name),
    }
 }
